@@ -565,3 +565,21 @@ pub fn free_fields() -> FieldsS {
     });
     proptest::collection::vec(rec, 0..8).boxed()
 }
+
+/// A chain of embedded messages: `path[0]` is the outermost field number, the
+/// innermost message is empty. Built in O(depth).
+pub fn nested_chain(prefix: &[u8], path: &[u32]) -> Vec<u8> {
+    let mut sizes = Vec::with_capacity(path.len());
+    let mut size = 0usize;
+    for num in path.iter().rev() {
+        sizes.push(size);
+        size += crate::wire::varint_len((*num as u64) << 3 | 2) + crate::wire::varint_len(size as u64);
+    }
+    let mut out = Vec::with_capacity(prefix.len() + size);
+    out.extend_from_slice(prefix);
+    for (num, payload) in path.iter().zip(sizes.iter().rev()) {
+        put_tag(&mut out, *num as u64, 2);
+        crate::wire::put_varint(&mut out, *payload as u64);
+    }
+    out
+}
